@@ -849,6 +849,42 @@ theorem scanStr_goQuoteBody (isPrint : Nat → Bool) (rest : List Nat) :
     rw [this, List.append_assoc, scanStr_goQuoteRune, ih]
     rfl
 
+/-! ### Relation.Format: projection to the sorted heading -/
+
+theorem lookupName_zip_map {α : Type} (f : List Nat → α) :
+    ∀ (l : List (List Nat)) (n : List Nat), n ∈ l → lookupName n (l.zip (l.map f)) = some (f n) := by
+  intro l
+  induction l with
+  | nil => intro n h; cases h
+  | cons k r ih =>
+    intro n h
+    by_cases hk : k = n
+    · subst hk; simp [lookupName]
+    · have hn : n ∈ r := by
+        rcases List.mem_cons.1 h with h' | h'
+        · exact absurd h'.symm hk
+        · exact h'
+      simp [lookupName, hk, ih n hn]
+
+theorem insName_perm (n : List Nat) : ∀ l : List (List Nat), (insName n l).Perm (n :: l) := by
+  intro l
+  induction l with
+  | nil => exact List.Perm.refl _
+  | cons m r ih =>
+    unfold insName
+    by_cases h : nameLt m n = true
+    · simp only [h, if_true]
+      exact ((List.Perm.cons m ih).trans (List.Perm.swap n m r))
+    · simp only [h, Bool.false_eq_true, if_false]
+      exact List.Perm.refl _
+
+theorem sortNames_perm (ns : List (List Nat)) : (sortNames ns).Perm ns := by
+  induction ns with
+  | nil => exact List.Perm.refl _
+  | cons n r ih =>
+    show (insName n (sortNames r)).Perm (n :: r)
+    exact (insName_perm n (sortNames r)).trans (List.Perm.cons n ih)
+
 /-! ## Part 4 — the tree level -/
 
 theorem readNum_formatG (n : Int) : readNum (decide (n < 0), formatG n.natAbs) = some n := by
